@@ -31,6 +31,9 @@ checks={
  "C05":dict(text=LVL+"(L2) one-step refinement: every option combination within the bounds, a canonical prefix of Add/Remove, optional Close, then 2 (3) arbitrary operations out of 9 compared with a reference FIFO (return values, Len, full drain; item values symbolic); (L2') one add/remove of the burst-credit tracker from an arbitrary valid private state with symbolic Float64 credit against the documented credit rules; (L1) happens-before race monitor on every concurrent execution; (cross-check) concurrent histories of 3 (4) operations of 10 kinds in 2 (3) goroutines under the symbolic scheduler, with a search for a real-time-consistent linearization explaining all return values and the final contents",
             note="hard limit <=4, prefix <=4 (5); tracker step: hard limit <=16; histories: unlimited and capacity-1 queues, preemption bound 2 (3); admission after a removal is specified only as {ok, ErrQueueNoCredit} below the hard limit (the credit granted by a removal and the dynamic soft quota are not documented); the reduction from 'lock discipline + one-step refinement' to linearizability of all histories is an argument (DESIGN C05), not a query; trusted: sync/cond/context models",
             ref="§5 C05", tech="SSA symbolic execution + SMT (BV, Float64 for the credit step), symbolic scheduler + linearization search for histories"),
+ "C06":dict(text=LVL+"one-step refinement against a reference deque with capacity (unlimited, fixed capacity, quota tracker): prefix of pushes at either end, optional Close, then 2 (3) arbitrary operations out of 12, with Len and both non-destructive walks compared after every step (item values symbolic); happens-before race monitor on every concurrent execution; concurrent histories of 3 (4) operations of 12 kinds in 2 (3) goroutines under the symbolic scheduler with a search for a real-time-consistent linearization",
+            note="capacity <=3, prefix <=3; histories: unlimited and capacity-1 deques, preemption bound 1 (2) because the deque's wait loops signal before every wait; quota-tracker Force pushes: only 'at most one eviction, from the opposite end, push succeeds, Len <= hard limit'; reduction to all histories is the DESIGN C05/C06 argument; trusted: sync/cond/context models",
+            ref="§5 C06", tech="SSA symbolic execution + SMT for item values, symbolic scheduler + linearization search for histories"),
 }
 NA={}
 m={"version":1,
